@@ -2,7 +2,7 @@
     each witness is replayed on the real chain by the corpus histories 9003/9004 of tools/py/props/c06.py).
     Neither is a conjunct of property C06 (its text restricts acknowledgements only for TSS
     counterparties), so they are recorded as behaviour, not as violations. *)
-From Teleport Require Import Base.Bytes Base.Outcome Model.Auth Props.C06.
+From Teleport Require Import Base.Bytes Base.Outcome Model.Auth Proofs.Auth Props.C06.
 
 Definition ackm (signer src relayer : bytes) : op unit unit unit unit :=
   OAck unit unit unit unit
@@ -33,4 +33,31 @@ Proof.
   exists (ex_run [ORegGov unit unit unit unit (B "alice") [B "eth-chain"] [B "0xA1"];
                   ORegGov unit unit unit unit (B "alice") [B "eth-chain"] [B "0xB2"]] ex_s0).
   vm_compute. split; reflexivity.
+Qed.
+
+(** The hypothesis [gov_only] of C06_gov_registry_no_panic is NECESSARY: a record imported by
+    InitGenesis from a genesis file that was not validated (ORegRaw) with fewer addresses than chains
+    makes the relayer look-up of RecvPacket index out of range (`ir.Addresses[i]`, a panic which
+    BaseApp recovers into a rejected message; replayed on the real chain by corpus history 9005). *)
+Theorem C06_unvalidated_genesis_record_panics_refuted :
+  exists (ops : list (op unit unit unit unit)) c signer,
+    Forall (rec_wf (fun _ => true)) (reg unit ex_s0) /\
+    other_chain_addr (reg unit (ex_run ops ex_s0)) c signer = Panic.
+Proof.
+  exists [ORegRaw unit unit unit unit (B "alice") [B "ghost-net"; B "eth-chain"] [B "0xA"]], (B "eth-chain"), (B "alice").
+  split; [constructor | vm_compute; reflexivity].
+Qed.
+
+(** "The Relayer recorded in an acknowledgement is the submitting relayer's own address (msg.Signer)"
+    — false, and it must be: the field is the COUNTERPARTY address governance registered for
+    (signer, source chain).  Recorded because a change of the code that writes msg.Signer instead is
+    invisible to every test that registers identical strings on both sides. *)
+Theorem C06_ack_relayer_is_signer_refuted :
+  exists (s : state unit) m,
+    snd (ex_step s (ORecv unit unit unit unit m)) = true /\
+    map (fun w => ack_relayer (w_ack w)) (wlog unit (fst (ex_step s (ORecv unit unit unit unit m)))) <> [rm_signer unit m].
+Proof.
+  exists (ex_run [ORegGov unit unit unit unit (B "alice") [B "eth-chain"] [B "0xA1"]] ex_s0),
+         {| rm_signer := B "alice"; rm_src := B "eth-chain"; rm_dst := B "teleport"; rm_seq := 1; rm_fee := 0; rm_rest := tt |}.
+  vm_compute. split; [reflexivity | discriminate].
 Qed.
